@@ -82,7 +82,7 @@ def ind_snapshot(ind: Individual, b, problem):
     fit = None
     if problem is not None and ind.has_fitness(problem):
         f = ind.get_fitness(problem)
-        fit = (f.maximizing_aggregate, tuple(f.fitness_components))
+        fit = (repr(f.maximizing_aggregate), tuple(repr(c) for c in f.fitness_components))   # (repr: NaN compares unequal to itself)
     return {"genotype": geno_snapshot(ind.genotype, b), "fitness": fit,
             "phenotype": None if ind.phenotype is None else node_snapshot(ind.phenotype, b, {})}
 
@@ -167,10 +167,60 @@ class GenRecorder(SearchRecorder):
         self.by_gen.setdefault(individual.metadata.get("generation", -1), []).append(individual)
 
 
+def dsge_sharing(h: Harness):
+    """dynamic SGE genotypes grow IN PLACE while they are mapped: two genotypes that share a gene list (a crossover
+    that hands the same list object to several children, a mutation that copies shallowly) change together.  A fixed
+    grammar with many gene-bearing symbols, long histories of crossover / mutation / mapping on a pool, every live
+    genotype re-checked after every single operation."""
+    from linear import DSGE, safe
+    C = gram.ClassSpec
+    spec = gram.Spec([C("E", True, None), C("Cond", True, None), C("Lit", False, 0, [("v", "int")]), C("Flag", False, 0, [("b", "bool")]),
+                      C("If", False, 0, [("c", ("cls", 1)), ("t", ("cls", 0)), ("e", ("cls", 0))]),
+                      C("Lt", False, 1, [("l", ("cls", 0)), ("r", ("ann", "int", ("intRange", 0, 9)))]),
+                      C("Not", False, 1, [("c", ("cls", 1))]), C("T", False, 1, []),
+                      C("Many", False, 0, [("xs", ("ann", ("list", ("cls", 0)), ("listSize", 1, 2))), ("u", ("union", ("cls", 1), "bool"))])],
+                     0, [2, 3, 4, 5, 6, 7, 8, 0, 1])
+    b = gram.build(spec)
+    g = b.extract()
+    rng = h.rng
+    line = sx(gram.spec_sx(spec))
+    for trial in range(h.n(10, 60)):
+        seedv = rng.randrange(10**6)
+        r = NativeRandomSource(seedv)
+        rep = DSGE(g, g.get_min_tree_depth() + rng.choice([1, 2, 3]))
+        w = Watch(h, b, None, True, "DynamicSGE:")
+        pool = [Individual(rep.create_genotype(r), rep) for _ in range(4)]
+        w.add(pool)
+        ok = True
+        for k in range(h.n(40, 80)):
+            op = rng.choice(["crossover", "crossover", "map", "map", "mutate"])
+            a, c = rng.choice(pool), rng.choice(pool)
+            new = []
+            if op == "map":
+                safe(lambda: a.get_phenotype())
+            elif op == "mutate":
+                st, out = safe(lambda: rep.mutate(r, a.genotype))
+                new = [Individual(out, rep)] if st == "ok" else []
+            else:
+                st, out = safe(lambda: rep.crossover(r, a.genotype, c.genotype))
+                new = [Individual(x, rep) for x in out] if st == "ok" else []
+            h.seen(f"dsge-sharing:{seedv}:{k}:{op}", nontrivial=bool(new))
+            if not w.verify(op, f"history step {k} ({op}) on a pool of dynamic-SGE genotypes", [line, seedv, k, op]):
+                ok = False
+                break
+            w.refresh()
+            pool.extend(new)
+            w.add(new)
+            if len(pool) > 14:   # the oldest leave the pool but stay watched (they are still somebody's individuals)
+                pool = pool[-10:]
+        h.count("dsge-sharing-histories" + ("" if ok else ":violated"))
+
+
 def run(h: Harness):
     from geneticengine.evaluation.tracker import SingleObjectiveProgressTracker
     from linear import safe
     rng = h.rng
+    dsge_sharing(h)
     for gi in range(h.n(14, 160)):
         spec = gram.productive_spec(rng, max_classes=rng.choice([3, 4, 6]), opts={"float": False})
         b = gram.build(spec)
@@ -205,8 +255,8 @@ def run(h: Harness):
             if len(pool) < 2:
                 continue
             w.add(pool)
-            for k in range(h.n(6, 14)):
-                op = rng.choice(["mutate", "crossover", "map", "evaluate"])
+            for k in range(h.n(6, 14) * (3 if is_dsge else 1)):
+                op = rng.choice(["mutate", "crossover", "map", "evaluate"] + (["crossover", "map"] if is_dsge else []))
                 a, c = rng.choice(pool), rng.choice(pool)
                 if op == "mutate":
                     st, out = safe(lambda: rep.mutate(r, a.genotype))
@@ -217,11 +267,16 @@ def run(h: Harness):
                 elif op == "map":
                     st, out = safe(lambda: a.get_phenotype())
                     new = []
-                    w.verify("genotype_to_phenotype", f"{name}.genotype_to_phenotype", [line, name, seedv, k]) if False else None
+                    # mapping ONE individual: every other live individual is untouched (a genotype that shares a gene list
+                    # with the one being mapped would grow with it), the mapped one only gains its cache / extension
+                    if not w.verify("genotype_to_phenotype", f"{name}.genotype_to_phenotype of another individual", [line, name, seedv, k]):
+                        break
                     w.refresh() if st == "ok" else None
                 else:
                     st, out = safe(lambda: ev.evaluate(problem, [a, c]))
                     new = []
+                    if not w.verify("evaluate", f"evaluating two individuals of a {name} pool", [line, name, seedv, k]):
+                        break
                     w.refresh()
                 h.seen(f"{line}:{name}:{seedv}:op{k}:{op}", nontrivial=bool(new))
                 if op in ("mutate", "crossover"):
@@ -254,7 +309,8 @@ def run(h: Harness):
                 if not w2.verify(f"step[{sname}]", f"{sname}.apply on {name} population", [line, name, seedv, sname, k]):
                     break
             # (b') lexicase selection needs a multi-objective problem: same checks, plus the list container
-            mop = MultiObjectiveProblem([False, True], lambda p: [float(len(repr(p)) % 5), float(len(repr(p)) % 3)])
+            # (some programs have an objective that cannot be computed: NaN)
+            mop = MultiObjectiveProblem([False, True], lambda p: [float(len(repr(p)) % 5), float("nan") if len(repr(p)) % 4 == 1 else float(len(repr(p)) % 3)])
             safe(lambda: ev.evaluate(mop, pool))
             mpool = [p for p in pool if p.has_fitness(mop)]
             if len(mpool) >= 3:
